@@ -125,6 +125,8 @@ def taint_text(s, va, vk, tkey):
         return ['del %s' % v]
     if how == 'handover':
         return ['H(%s)' % v]
+    if how == 'handover_expr':
+        return ['H([%s] if SWT else None)' % v]
     if how == 'contains':
         return ['%r in %s' % (tkey, v)]
     if how == 'item_set':
@@ -222,6 +224,9 @@ class Recorder:
     def handover(self, obj):
         if isinstance(obj, dict):
             self.handed.add(id(obj))
+        elif isinstance(obj, (list, tuple)):
+            for x in obj:
+                self.handover(x)
         elif isinstance(obj, types.FunctionType):
             for d in obj.__defaults__ or ():          # captured as a default value
                 if isinstance(d, dict):
